@@ -71,6 +71,20 @@ def size_cases(thorough, seed):
             for p, t in combos:
                 cases.append(size_case(fmt, n, p, t, seed * 7919 + len(cases), len(cases) % 2 == 0))
             k += 1
+    # remainders: lines > 1000 * threads with lines % threads # 0 (a split into one slice per worker
+    # thread must not lose the tail), in each format
+    rem = [(2001, 2), (2501, 2), (3002, 3)] + ([(4003, 4), (16010, 16), (20001, 16), (7001, 7)] if thorough else [])
+    for fmt in FMTS:
+        for n, t in rem:
+            cases.append(size_case(fmt, n, priors[len(cases) % 3], t, seed * 7919 + len(cases), len(cases) % 2 == 0))
+    # a prefix bound differently by an earlier load / re-declared inside the document, used after line 1000
+    for fmt in ("ttl", "n3"):
+        for j, f0 in enumerate(("ttl", "n3", "xml")):
+            for n in ([1001, 2500] if not thorough else [999, 1001, 2500, 5000]):
+                c = size_case(fmt, n, "load:" + f0, threads[(j + n) % 3], seed * 15485863 + len(cases), True)
+                c["gen"]["altns"] = True
+                c["gen"]["redecl"] = (j + n) % 2 == 0
+                cases.append(c)
     # histories: the prior content was itself loaded, from another format
     for i, fmt in enumerate(FMTS):
         for j, f0 in enumerate(FMTS):
